@@ -114,8 +114,10 @@ def known_class(ctx, ex, it):
             # assign_type resolved a named type to an EXISTING type of that name although the two differ
             # (derived names of inline enums / objects under properties, tuple items, variants …)
             reuse = (ex.world.gen[it["m"]] or {}).get("name_reuse") or []
-            if reuse and ("missing field" in err or "unknown field" in err or "invalid type" in err or
-                          "unknown variant" in err or "did not match any variant" in err):
+            if reuse and any(x in err for x in ("missing field", "unknown field", "invalid type", "unknown variant",
+                                                "did not match any variant", "invalid value", "invalid length")):
+                # the value was read with ANOTHER type's deserialiser (a struct position read as an enum gives
+                # "invalid value: map, expected map with a single key", a tuple "invalid length", …)
                 return f
         if cls == "internal-document-read-as-adjacent":
             if ent.get("kind") == "enum" and ent.get("tag", {}).get("k") == "adjacent":
